@@ -3,16 +3,19 @@ package main
 import (
 	"fmt"
 	"reflect"
+	"sync"
+	"unsafe"
 
 	"github.com/welllog/golib/setz"
 )
 
 // C03: setz.RoaringBitmap as a set of uint32 with complete ascending enumeration.
 // case = ops, op = [code a b c d e]
-//   0 Add a | 1 Remove a | 2 Contains a | 3 Len | 4 Iter | 5 Range (callback false at its a-th call; 0 = never) | 6 All (same)
-//   7 AddRun | 8 RemoveRun | 9 ContainsRun: a = high key, b = first low, c = count, d = step, e = modulus;
-//     i-th value = uint32(a<<16 + (b+i*d) mod e); one result per value
-//   10 Buckets: number of containers in the map (the unexported listz.SkipList length, read through reflect)
+//
+//	0 Add a | 1 Remove a | 2 Contains a | 3 Len | 4 Iter | 5 Range (callback false at its a-th call; 0 = never) | 6 All (same)
+//	7 AddRun | 8 RemoveRun | 9 ContainsRun: a = high key, b = first low, c = count, d = step, e = modulus;
+//	  i-th value = uint32(a<<16 + (b+i*d) mod e); one result per value
+//	10 Buckets: number of containers in the map (the unexported listz.SkipList length, read through reflect)
 const c03W = 6
 
 func c03u32(z int64) uint32 { return uint32(((z % (1 << 32)) + (1 << 32)) % (1 << 32)) }
@@ -34,8 +37,54 @@ func c03Vals(a, b, n, d, e int64) []uint32 {
 	return out
 }
 
-func c03Buckets(r *setz.RoaringBitmap) int64 {
-	return reflect.ValueOf(r).Elem().FieldByName("containers").FieldByName("len").Int()
+// number of buckets: the field of RoaringBitmap that is the container map (found by type: the struct field whose pointer
+// has a Len method), asked through that method; -7 when there is no such field (the model never answers -7: the generator
+// then leaves the Buckets observation out, see c03BucketsOK)
+func c03Buckets(r *setz.RoaringBitmap) (n int64) {
+	defer func() {
+		if recover() != nil {
+			n = -7
+		}
+	}()
+	v := reflect.ValueOf(r).Elem()
+	f, ok := PickField(v.Type(), []string{"containers", "buckets", "chunks"}, func(g reflect.StructField) bool {
+		if g.Type.Kind() != reflect.Struct && g.Type.Kind() != reflect.Ptr {
+			return false
+		}
+		pt := g.Type
+		if pt.Kind() == reflect.Struct {
+			pt = reflect.PtrTo(pt)
+		}
+		m, has := pt.MethodByName("Len")
+		return has && m.Type.NumIn() == 1 && m.Type.NumOut() == 1 && m.Type.Out(0).Kind() == reflect.Int
+	})
+	if !ok {
+		return -7
+	}
+	fv := v.FieldByIndex(f.Index)
+	var recv reflect.Value
+	if f.Type.Kind() == reflect.Struct {
+		recv = reflect.NewAt(f.Type, unsafe.Pointer(fv.UnsafeAddr()))
+	} else {
+		recv = reflect.NewAt(f.Type, unsafe.Pointer(fv.UnsafeAddr())).Elem()
+	}
+	return recv.MethodByName("Len").Call(nil)[0].Int()
+}
+
+var c03BOnce sync.Once
+var c03BOK bool
+
+func c03BucketsOK() bool {
+	c03BOnce.Do(func() {
+		var r setz.RoaringBitmap
+		r.Add(1)
+		r.Add(70000)
+		c03BOK = c03Buckets(&r) == 2
+		if !c03BOK {
+			InstrLost("setz.RoaringBitmap container map (the number of buckets is not observed)")
+		}
+	})
+	return c03BOK
 }
 
 func c03Impl(in []int64) []int64 {
@@ -104,6 +153,9 @@ func c03gcd(a, b int64) int64 {
 
 func c03Op(c int64, args ...int64) []int64 {
 	o := make([]int64, c03W)
+	if c == 10 && !c03BucketsOK() {
+		c = 3 // the container map is not reachable on this tree: observe Len instead
+	}
 	o[0] = c
 	copy(o[1:], args)
 	return o
@@ -232,7 +284,7 @@ func c03Gen(c *Ctx) {
 		var in []int64
 		crossed := false
 		budget := int64(t.C.N(13000, 30000)) // single Add/Remove/Contains operations a script may expand to
-		big := map[int64]bool{}                // at most two buckets receive large fills (bounds the specification's list)
+		big := map[int64]bool{}              // at most two buckets receive large fills (bounds the specification's list)
 		phases := 3 + r.Intn(t.C.N(4, 7))
 		for p := 0; p < phases; p++ {
 			h := ks[r.Intn(nk)]
